@@ -32,7 +32,7 @@ func c10SessionStage(c *vh.Ctx, table []fertRow) {
 				last = az + 1
 			}
 			s0 := p.Start().Z()
-			p.Cfg["Fertilization"] = strconv.Itoa([]int{100, 50, 75, 120, 33}[r.Intn(5)])
+			p.Cfg["Fertilization"] = strconv.Itoa([]int{100, 50, 75, 120, 33, 0}[r.Intn(6)])
 			p.SetFormat(format, end, annD, annM)
 			return genC10Schedules(r, p, 100+kk, table, s0, last, true), s0, last
 		}
